@@ -43,7 +43,7 @@ ODD = ["ſelect 1", "DEſCRIBE t", "EXPLAıN SELECT 1", "SELECT\u00a01", "ＳＥ
 
 # delimiters that quote in *other* SQL dialects (PostgreSQL dollar quoting and E'' strings, Oracle q'[]', MySQL '#' comments,
 # nested comments) or are bind parameters in SQLite: SQLite executes what stands between them
-PSEUDO = [("$$", "$$"), ("$a$", "$a$"), ("$q_1$", "$q_1$"), ("?", "?"), ("?1", "?1"), (":x", ":x"), ("@v", "@v"), ("# ", "\n"), ("/* /* */", "*/"), ("E'\\'", "'"), ("q'[", "]'"),
+PSEUDO = [("$a(')", "--'"), (":a(')", "--'"), ("@v(\")", "--\""), ("#t(')", "-- '"), ("$a::b(')", "--'"), ("$a(x')", "--')"), ("x::numeric(10,2) '", "'"), ("$$", "$$"), ("$a$", "$a$"), ("$q_1$", "$q_1$"), ("?", "?"), ("?1", "?1"), (":x", ":x"), ("@v", "@v"), ("# ", "\n"), ("/* /* */", "*/"), ("E'\\'", "'"), ("q'[", "]'"),
           ("{", "}"), ("<<", ">>"), ("N'", "'"), ("x'", "'"), ("$$ --", "\n$$"), ("U&'", "'")]
 
 
